@@ -351,7 +351,9 @@ func valueLeavesOpt(v ssa.Value, chain []*ssa.Call, depth int, stopAtCells bool)
 						}
 					}
 					if len(whole) == 1 && !fieldStores {
-						if _, isP := whole[0].(*ssa.Parameter); isP {
+						_, isP := whole[0].(*ssa.Parameter)
+						_, isCall := whole[0].(*ssa.Call) // signal := newChangeSignal(); … signal.c
+						if isP || isCall {
 							if ls := structFieldLeaves(whole[0], fa.Field, chain, depth, stopAtCells); ls != nil {
 								return ls
 							}
@@ -614,6 +616,24 @@ func structFieldLeaves(base ssa.Value, field int, chain []*ssa.Call, depth int, 
 		if !mapped {
 			return nil
 		}
+	}
+	// signal := newChangeSignal(); … signal.c: the struct value is what a constructor of the module returns - the field of the
+	// literal it builds
+	if call, isCall := base.(*ssa.Call); isCall {
+		cal := staticCallee(&call.Call)
+		if cal == nil || cal.Blocks == nil || curCtx == nil || !curCtx.inModule(cal) || depth > 6 {
+			return nil
+		}
+		var out []leafVal
+		sub := append(append([]*ssa.Call{}, bchain...), call)
+		for _, rv := range returnedBy(origin(cal), 0) {
+			ls := structFieldLeaves(rv, field, sub, depth+1, stopAtCells)
+			if ls == nil {
+				return nil
+			}
+			out = append(out, ls...)
+		}
+		return out
 	}
 	ld, isLd := base.(*ssa.UnOp)
 	if !isLd || ld.Op != token.MUL {
